@@ -363,7 +363,7 @@ func TestGlobEnum(t *testing.T) {
 func TestGlobLinks(t *testing.T) {
 	s := ev.Open(t, "C05")
 	root := filepath.Join(workRoot(t), "proj")
-	bases := [][]string{nil, {"a.x", "src/a.x", ".env", "src/.h.x"}, globPool[:globPoolSize()]}
+	bases := [][]string{nil, {"a.x", "src/a.x", ".env", "src/.h.x"}, globPool[:globPoolSize()], {"a.spok.x", "docs/plan.spok.x", "src/a.x", "z.x"}}
 	seen := map[string]bool{}
 	var idx uint64
 	for mask := 1; mask < 1<<len(linkPool); mask++ {
@@ -402,7 +402,7 @@ func TestGlobLinks(t *testing.T) {
 }
 
 var segNames = []string{"a", "b", "src", "sub", ".h", ".d", "-x", "z", "lib", "Z"}
-var fileNames = []string{"a.x", "b.x", ".h.x", "c.y", "-f.x", "z.x", "m", ".env", "a.x.bak", "[d]raft.x", "q*r.x", "dx.x"}
+var fileNames = []string{"a.x", "b.x", ".h.x", "c.y", "-f.x", "z.x", "m", ".env", "a.x.bak", "[d]raft.x", "q*r.x", "dx.x", "a.spok.x", "ci.spokfile.x"}
 
 func genGlobCase(t *rapid.T) GlobCase {
 	c := GlobCase{Patterns: globPatterns}
